@@ -2,7 +2,7 @@
    This file: the deterministic (Euler) engine, exactly over Qc, for grid and graph geometry,
    every number of species / reactions / cells, every boundary mix. The stochastic engines are
    in the second part (event application), see below. *)
-From Coq Require Import ZArith QArith Qcanon List.
+From Coq Require Import ZArith QArith Qcanon List Lia.
 From Verif Require Import Num Grid GridFacts Engine EngineFacts EngineConserve.
 Open Scope Qc_scope.
 
@@ -39,3 +39,35 @@ Theorem C02_diffusion_only : forall T G dt x k,
   total T (unit_vec (nS T) k) (euler_step T G dt x) = total T (unit_vec (nS T) k) x.
 Proof. exact diffusion_only_conserves_species. Qed.
 Print Assumptions C02_diffusion_only.
+
+(* ---- stochastic engines: whatever event is drawn and whatever counts the Poisson sampler
+   returns, applying them keeps every conservation law exactly ---- *)
+From Verif Require Import Stochastic StochasticFacts.
+
+(* Gillespie: one firing of one reaction channel, or one molecule moving between two cells *)
+Theorem C02_event : forall T c x en, wf_state T x -> event_in_range T (fst en) ->
+  conserved T c -> unchemostated T c ->
+  total T c (apply_event T x en) = total T c x.
+Proof. exact event_conserves. Qed.
+Print Assumptions C02_event.
+
+(* tau-leap: any list of (channel, count) applied in any order; and any Gillespie trajectory *)
+Theorem C02_events : forall T c evs x, wf_state T x -> (forall en, In en evs -> event_in_range T (fst en)) ->
+  conserved T c -> unchemostated T c ->
+  total T c (apply_events T evs x) = total T c x.
+Proof. exact events_conserve. Qed.
+Print Assumptions C02_events.
+
+(* non-vacuity: A + B <-> C conserves A + C and B + C; [1;0;1] satisfies the hypotheses on a concrete table *)
+Definition ex_T2 : etab := {| nS := 3; nR := 2; nE := 1; nC := 2; tk := [1; 1]; tsub := [1; 0; 1; 0; 0; 1]%Z;
+                              tsto := [-1; 1; -1; 1; 1; -1]%Z; tD := [1; 1; 1]; tenv := [0; 0]%nat;
+                              tchs := [false; true; false; false; false; false] |}.
+Example C02_example : conserved ex_T2 [1; 0; 1]%Z /\ unchemostated ex_T2 [1; 0; 1]%Z
+  /\ this (total ex_T2 [1; 0; 1]%Z (apply_event ex_T2 (map QcZ [5; 4; 3; 2; 1; 0]%Z) (EReact 0 0, 1))) = (10 # 1)%Q.
+Proof.
+  split; [|split].
+  - intros r Hr. do 2 (destruct r as [|r]; [vm_compute; reflexivity|]). cbn in Hr. lia.
+  - intros s i Hs Hi Hne. cbn in Hs, Hi.
+    do 3 (destruct s as [|s]; [do 2 (destruct i as [|i]; [try reflexivity; try (exfalso; apply Hne; reflexivity)|]); lia|]). lia.
+  - vm_compute. reflexivity.
+Qed.
